@@ -146,7 +146,7 @@ func verifC08Epoch(n uint64) *Epoch {
 // the epochs carry (bit 0: blocktime index, bit 1: signature-exists filter, bit 2: gsfa reader,
 // bit 3: genesis on epoch 0).
 func verifC08Server(nEpochs int, first uint64, feature int, conc int) *MultiEpoch {
-	m := NewMultiEpoch(&Options{GsfaOnlySignatures: verifChoice("gsfaOnlySignatures", 2) == 1, EpochSearchConcurrency: conc})
+	m := NewMultiEpoch(&Options{GsfaOnlySignatures: feature&4 != 0 && verifChoice("gsfaOnlySignatures", 2) == 1, EpochSearchConcurrency: conc})
 	for i := 0; i < nEpochs; i++ {
 		n := first + uint64(i)
 		e := verifC08Epoch(n)
@@ -219,13 +219,22 @@ func VerifC08Dispatch() {
 
 	// epochs loaded: 0, 1 (epoch 0 or epoch 1) or 3 (epochs 0..2)
 	nEpochs, first := 0, uint64(0)
-	switch verifChoice("epochs", 4) {
+	ec := verifParam("epochs", -1)
+	if ec < 0 {
+		if method == "getTransaction" {
+			// the multi-epoch signature search (goroutines) is obligation C08.search
+			ec = verifChoice("epochs", 3)
+		} else {
+			ec = verifChoice("epochs", 4)
+		}
+	}
+	switch ec {
 	case 1:
 		nEpochs = 1
 	case 2:
 		nEpochs, first = 1, 1
 	case 3:
-		nEpochs = 3
+		nEpochs = verifParam("several", 3)
 	}
 
 	req := &jsonrpc2.Request{Method: method, ID: jsonrpc2.ID{Num: 1}}
@@ -234,7 +243,16 @@ func VerifC08Dispatch() {
 	case "getBlock":
 		req.Params = verifC08DispatchParams(verifC08Key{"slot", verifC08Number, []string{"1"}, []float64{1, 0, 432000, 432001, 1295999, 1296000, 1e300, -1, 1.5}}, true, true)
 	case "getTransaction":
-		req.Params = verifC08DispatchParams(verifC08SigArg, true, nEpochs > 0)
+		if nEpochs >= 2 {
+			// the request shapes are explored with 0 and 1 epochs; the epoch search itself
+			// only runs for a well-formed request
+			verifC08UnmarshalFails, verifC08ParamsMissing = false, false
+			verifC08Params = []any{verifC08Sig64}
+			raw := json.RawMessage("[opaque]")
+			req.Params = &raw
+		} else {
+			req.Params = verifC08DispatchParams(verifC08SigArg, true, nEpochs > 0)
+		}
 		if nEpochs > 0 {
 			feature = 2 * verifChoice("feature.sigExists", 2)
 		}
